@@ -31,8 +31,10 @@ start/stop calls) with flushes at arbitrary points, whose policy keys have pairw
 tie-break strings (`KeyU`, true of validated Calico names): after the history followed by a flush
 with the resolver in sync, the LAST update emitted for EVERY local endpoint — whether that last flush
 re-emitted it or not (dirty-set completeness) — carries the endpoint's current data and a tier list
-`l` with `IsSpec ds all matched e l`, the from-scratch description w.r.t. the current datastore tier
-resources `ds`, policy metadata `all` and match relation `matched`: tiers ascending (existing tiers
+`l` with `IsSpec ds all matched e l`, the from-scratch description w.r.t. the datastore tier resources
+`ds = dsHist [] hist`, the policy metadata `all = polHistory [] hist`, the match relation
+`matched = matchedHistory [] hist` and the endpoint table `epHistory [] hist` — all four plain folds of the
+HISTORY, not fields of the resolver: tiers ascending (existing tiers
 first, order, unset last, name) with the datastore tier's order / default action, no empty tier,
 policies ascending (order, default last, name/namespace/kind), and a policy is listed — with its
 current metadata, in the tier that metadata names — iff it matches the endpoint.  `IsSpec` determines
@@ -41,9 +43,14 @@ state emits.  An endpoint that does not exist has no update or a removal as its 
 theorem resolver_eq_spec (K : PolicyKey → Prop) (hK : KeyU K) (hist : List RStep) (hin : HistIn K hist)
     (r : Resolver) (L : Last) (hr : runL {} (fun _ => none) (hist ++ [.flush]) = some (r, L)) (hsync : r.inSync = true)
     (e : EpKey) :
-    match mget r.endpoints e with
+    match mget (epHistory [] hist) e with
     | none => L e = none ∨ L e = some none
-    | some ep => ∃ l, L e = some (some ⟨ep, l⟩) ∧ IsSpec (dsHist [] hist) r.allPolicies r.matched e l := by
+    | some ep => ∃ l, L e = some (some ⟨ep, l⟩) ∧
+        IsSpec (dsHist [] hist) (polHistory [] hist) (matchedHistory [] hist) e l := by
+  obtain ⟨t1, t2, t3⟩ := runL_tables (hist ++ [.flush]) hr
+  obtain ⟨a1, a2, a3⟩ := tables_append_flush hist
+  rw [a1] at t1; rw [a2] at t2; rw [a3] at t3
+  rw [← t1, ← t2, ← t3]
   obtain ⟨r0, L0, calls, h0, hf, rfl⟩ := runL_append_flush hist hr
   obtain ⟨r0', L0', h0', hinv⟩ := runL_inv hK (DInv.init K) hist hin
   rw [h0] at h0'; simp only [Option.some.injEq, Prod.mk.injEq] at h0'
@@ -53,6 +60,15 @@ theorem resolver_eq_spec (K : PolicyKey → Prop) (hK : KeyU K) (hist : List RSt
   have hd : r.dirty = [] := ((flush_fields hf).2.2.2.1 hs0).1
   have := hinv'.good e (by rw [hd]; simp)
   exact this
+
+/-- Bridging lemma used above, stated on its own: the resolver's internal policy table, match relation
+and endpoint table are exactly the folds of the history (`polHistory` = last policy update per key,
+`matchedHistory` = started-and-not-stopped matches, `epHistory` = last endpoint update per key), so a
+model that dropped or invented an update could not satisfy `resolver_eq_spec`. -/
+theorem resolver_tables_are_history_folds (hist : List RStep) (r : Resolver) (L : Last)
+    (hr : runL {} (fun _ => none) hist = some (r, L)) :
+    r.allPolicies = polHistory [] hist ∧ r.matched = matchedHistory [] hist ∧ r.endpoints = epHistory [] hist :=
+  runL_tables hist hr
 
 /-- no panic: the run of `resolver_eq_spec` always succeeds -/
 theorem resolver_run_total (K : PolicyKey → Prop) (hK : KeyU K) (hist : List RStep) (hin : HistIn K hist) :
